@@ -146,8 +146,8 @@ def u_should_instrument(c):
     els = []
     want = want2 = False
     for i in range(c.choose(3)):
-        elname = [None, "x", "y"][c.choose(3)]
-        tk = c.choose(4)
+        elname = [None, "x", "y"][c.choose(3) if i == 0 else c.choose(2)]
+        tk = c.choose(4) if i == 0 else [0, 3][c.choose(2)]
         T = None if tk == 3 else tags[ALPHA[tk]]
         els.append(mk_obj(it, S, "Element", name=elname, value=it.models.absent(it), category=T, capture=f"c{i}", tags=frozenset()))
         want = want or ((elname is None or elname == "x") and (T is None or ALPHA[tk] in members))
